@@ -393,3 +393,6 @@ def gen_ops(rng, tier, ctx=None):
 def nontrivial(line):
     op = line.split(" ", 1)[0]
     return line if len(line) > len(op) + 8 else None
+
+# source pins: the C files the Lean model cites (see tools/pins.py)
+PINS = [('mpn/generic/gcd_1.c', None), ('mpn/generic/modexact_1c_odd.c', None), ('mpz/gcd.c', None), ('mpz/gcd_ui.c', None), ('mpz/gcdext.c', None), ('mpz/invert.c', None), ('mpz/jacobi.c', None), ('mpz/kronsz.c', None), ('mpz/kronuz.c', None), ('mpz/kronzs.c', None), ('mpz/kronzu.c', None), ('mpz/lcm.c', None), ('mpz/lcm_ui.c', None)]
